@@ -23,17 +23,24 @@ MODELLED_NOT_VERIFIED = [
     "tied by comparing fp, fn, wRF, Euclid^2 and the missing-bipartition set per generated pair",
     "C04: sqrt (the model and the theorems work with the squared Euclidean distance; Minkowski's inequality is stated on square roots in ℝ), "
     "binary64 rounding (exact comparison on dyadic lengths only), TreeShapeKernel classes",
-    "C04: staleness after edits, the namespace refusal and the is_bipartitions_updated=True paths are not modelled (oracle only)",
+    "C04: Model/C04State.lean (tree objects with a stored encoding, the is_bipartitions_updated switch, namespace identity) is hand-written; "
+    "tied by comparing the unweighted functions in every history step (default and is_bipartitions_updated=True calls, stale answers included) "
+    "and the namespace refusal; the weighted functions with is_bipartitions_updated=True (lazily built split->edge map) are not modelled",
 ]
-EXPLANATION = ("Theorems: fp/fn/RF are the cardinalities of the one-sided and symmetric differences of the split sets; RF, wRF and Euclid^2 are "
-               "symmetric (value and definedness), zero on equal inputs, zero only between equal split->length functions, obey the triangle "
-               "inequality (Euclid: Minkowski on square roots; euclidSq_nonneg links the squared model value to the root), depend on the "
-               "split->length maps only. Bridges to what the driver runs: the "
-               "split list of edgeRecs is C01.encode's; rf_zero_iff_topology: RF of two rooted trees is 0 iff same topology up to child order "
-               "and unifurcations, fpfn_redraw_rooted: re-drawing a rooted tree changes no unweighted distance. _partial: "
-               "fpfn_child_order_partial / dist_child_order_partial (child reordering changes no distance nor its definedness; weighted: "
-               "under distinct splits; not covered: a not-rooted tree with bifurcating seed, unifurcation insertion for the weighted ones), "
-               "rf_zero_seed_move_partial (one seed-move step of an unrooted tree keeps RF 0; weighted distances and iteration not covered).")
+EXPLANATION = ("Theorems about the definitions the driver runs. Definitions: fp/fn/RF are the cardinalities of the one-sided and symmetric "
+               "differences of the split sets; wRF / Euclid^2 are the L1 / squared L2 norm of the split->length functions, and "
+               "lenAt_eq_split_sum(_rooted): that function is the total length of the edges of the tree AS DRAWN inducing the split "
+               "(unifurcation suppression adds lengths; rooted: rooted_splits_nodup shows no edge is lost). Metric: symmetric (value and "
+               "definedness), zero on equal inputs and only between equal split->length functions, triangle (Euclid: Minkowski on roots; "
+               "euclidSq_nonneg links square and root). Representation: rf_zero_iff_topology (rooted RF = 0 iff same topology), "
+               "fpfn_redraw_rooted, dist_child_order_rooted, dist_redraw_rooted (children reordered + unifurcations inserted with the "
+               "length split: no weighted distance changes, rooted), fpfn_seed_path (any path of seed moves of an unrooted tree keeps all "
+               "unweighted distances). Histories: history_default_call_is_fresh (after ANY interleaving of edits and calls with either "
+               "flag, a default call returns the value of the current structures), default_call_ignores_stored_encoding, "
+               "updated_call_uses_stored_encoding, namespace_refusal. _partial: dist_seed_move_partial (one seed move keeps wRF/Euclid; "
+               "Nodup of the normalised split lists is assumed, iteration not proved), fpfn_child_order_partial / dist_child_order_partial "
+               "(superseded for rooted trees; for not-rooted trees a bifurcating seed is excluded), rf_zero_seed_move_partial (superseded "
+               "by fpfn_seed_path).")
 
 ROOT = c01.ROOT
 UNROOT = {"R": True, "U": False, "N": None}
@@ -376,6 +383,24 @@ def flush(ctx, pending):
         if o is None:
             continue
         ctx.compared()
+        if "sdist" in m:
+            name, impl = m["sdist"]
+            if o == "refused" or impl == "refused":
+                model = o
+            else:
+                head, _, miss = o.partition("|")
+                f = head.split()
+                if len(f) != 2:
+                    model = o
+                elif name == "symmetric_difference":
+                    model = int(f[0]) + int(f[1])
+                elif name == "false_positives_and_negatives":
+                    model = (int(f[0]), int(f[1]))
+                else:
+                    model = sorted(set(int(x) for x in miss.split()))
+            if model != impl:
+                ctx.disagree("sdist " + name, case, str(impl), o)
+            continue
         head, _, miss = o.partition("|")
         f = head.split()
         ok = len(f) == 4 and f[0] == str(m["fpfn"][0]) and f[1] == str(m["fpfn"][1])
@@ -475,9 +500,41 @@ def judge_namespace(ctx, dendropy, case, pending):
                 t1.encode_bipartitions()
                 t2.encode_bipartitions()
             st, v = call(fn, treecompare, t1, t2)
+            if name in UNWEIGHTED and not encoded:
+                cur = [snapshot(t1), snapshot(t2)]
+                pending.append((sdist_line(False, 0, 1, cur, [None, None]), dict(case, fn=name), {"sdist": (name, canon_unweighted(name, st, v))}))
             if st == "v":
                 ctx.fail("namespace", "%s accepted trees over different taxon namespaces%s and returned %r" % (
                     name, " (both already encoded)" if encoded else "", v if not isinstance(v, list) else len(v)), dict(case, fn=name))
+
+
+# ---- the tree-object model (Model/C04State.lean): stored encodings, is_bipartitions_updated, namespace identity
+UNWEIGHTED = ("symmetric_difference", "false_positives_and_negatives", "find_missing_bipartitions")
+
+
+def snapshot(t):
+    return (tu.encode_tree(t, with_labels=False)[0], ROOT[t.is_rooted])
+
+
+def sdist_line(updated, ns1, ns2, cur, old):
+    """cur / old: [(tokens, rooting)] * 2 ; old[i] None = tree i never encoded"""
+    parts = ["sdist", "1" if updated else "0", str(ns1), str(ns2), cur[0][1], cur[1][1],
+             "0" if old[0] is None else "1", "0" if old[1] is None else "1"]
+    parts += cur[0][0] + cur[1][0]
+    for o in old:
+        if o is not None:
+            parts += o[0]
+    return " ".join(parts)
+
+
+def canon_unweighted(name, st, v):
+    if st == "E":
+        return "refused"
+    if name == "symmetric_difference":
+        return v
+    if name == "false_positives_and_negatives":
+        return tuple(v)
+    return sorted(set(bp.split_bitmask for bp in v))
 
 
 # ---- histories
@@ -531,14 +588,18 @@ def gen_step(rng):
     return step
 
 
-def history_call(ctx, dendropy, name, t1, t2, d1, d2, case, when, edited):
+def history_call(ctx, dendropy, name, t1, t2, d1, d2, case, when, edited, old, pending=None):
     """one call with default arguments on the LIVE trees, judged against the from-scratch tables of their current structure.
     A wrong answer after an edit is `stale` when the same call on fresh copies of the current trees is right (so the live
     objects' cached data is to blame), otherwise it is a plain definition failure."""
     from dendropy.calculate import treecompare
     fp, fn = o_rf(d1, d2)
     fresh = (clone(dendropy, t1), clone(dendropy, t2)) if edited else None      # copies of the structure the call is about to see
+    cur = [snapshot(t1), snapshot(t2)]
     st, v = call(getattr(treecompare, name), t1, t2)
+    if name in UNWEIGHTED and pending is not None:      # the model's tree objects: default arguments ignore the stored encodings
+        pending.append((sdist_line(False, 0, 0, cur, old), case, {"sdist": (name, canon_unweighted(name, st, v))}))
+    old[0], old[1] = cur          # every public function encodes both trees before anything else
     fcase = dict(case, fn=name)
     weighted = name in ("weighted_robinson_foulds_distance", "euclidean_distance")
     if st == "E":
@@ -581,8 +642,9 @@ def judge_history(ctx, dendropy, case, pending, rng=None, nsteps=0):
     steps = case.setdefault("steps", [])
     case["basal_bifurcation_survives"] = basal_survives(t1) or basal_survives(t2)
     d1, d2 = split_lengths(t1), split_lengths(t2)
+    old = [None, None]        # (tokens, rooting) of each tree when its bipartition encoding was last stored
     for name in case.get("first_calls", FUNCS):       # populate encodings and split -> edge maps
-        history_call(ctx, dendropy, name, t1, t2, d1, d2, case, "before any edit", False)
+        history_call(ctx, dendropy, name, t1, t2, d1, d2, case, "before any edit", False, old, pending)
     i = 0
     while True:
         if rng is not None:
@@ -598,9 +660,17 @@ def judge_history(ctx, dendropy, case, pending, rng=None, nsteps=0):
         case["basal_bifurcation_survives"] = basal_survives(t1) or basal_survives(t2)     # of the drawings this step's calls start from
         d1, d2 = split_lengths(t1), split_lengths(t2)
         for name in step.get("updated_first", ()):
-            call(getattr(treecompare, name), t1, t2, is_bipartitions_updated=True)     # may legitimately be stale: not judged
+            # may legitimately be stale: not judged by the oracle, but the unweighted ones are predicted by the model's stored encodings
+            cur = [snapshot(t1), snapshot(t2)]
+            st, v = call(getattr(treecompare, name), t1, t2, is_bipartitions_updated=True)
+            if name in UNWEIGHTED:
+                pending.append((sdist_line(True, 0, 0, cur, old), dict(case, steps=steps[:i], fn=name + "(is_bipartitions_updated=True)"),
+                                {"sdist": (name, canon_unweighted(name, st, v))}))
+            for k in (0, 1):
+                if old[k] is None:
+                    old[k] = cur[k]      # a tree never encoded is encoded now; an encoded one keeps its stored encoding
         for name in step["calls"]:
-            history_call(ctx, dendropy, name, t1, t2, d1, d2, dict(case, steps=steps[:i]), "after edit %d (%s of tree %d)" % (i, step["edit"], step["tree"] + 1), True)
+            history_call(ctx, dendropy, name, t1, t2, d1, d2, dict(case, steps=steps[:i]), "after edit %d (%s of tree %d)" % (i, step["edit"], step["tree"] + 1), True, old, pending)
     ctx.case(["history", case["tree"], case["tree2"], steps], True, sample=dict(case, steps=steps[:3]), kind="history")
     return case
 
